@@ -57,6 +57,11 @@ def run(chk):
     # ---- R1
     n = compare(chk, "R1", None, [("cache", "polars"), ("cache", "sql")])
     chk.floor("R1", "verb x compiler x component comparisons", n, 48)
+    from ..siblings import marker_part_terms
+
+    mp = marker_part_terms(sib)
+    chk.ob("R1", sib.cfgs["cache"].module, sib.cfgs["cache"].func, f"SubqueryMarker.PART: cache = {S.show(mp['cache'])}, polars = {S.show(mp['polars'])}, sql = {S.show(mp['sql'])}",
+           mp["cache"] == mp["polars"] == mp["sql"], "the grouping state across a subquery marker differs between the cache and the compilers")  # fmt: skip
     _leaf_rule(chk, sib, sym)
 
     # ---- R2
@@ -212,6 +217,10 @@ def run(chk):
             "partition_by (summarize) raises a bare KeyError",
         )  # fmt: skip
     chk.floor("R5", "invariant obligations", n5, 24)
+    from .. import kinds as _kinds
+
+    chk.rule("R6", "current column names in the cache come from the name maps, never from a stored Col object's creation-time .name")
+    chk.floor("R6", "Col.name uses in the cache layer", _kinds.cache_name_discipline(chk, "R6"), 2)
     chk.assumptions += [
         "sequence terms abstract element-wise projections (col._uuid, name lookups) as identities",
         "Join: visible names of both inputs are disjoint (obligation of verbs.join, C06)",
